@@ -13,6 +13,8 @@ _ARITH_FULL = {m: {"shims": ("math", "struct")} for m in (
     "xdsl.transforms.canonicalize", "xdsl.interpreter")}
 
 CHECKS = {
+    "C08": {"module": "vx.checks.c08", "instrument": {"full": {"xdsl.dialects.builtin": {"shims": ("math", "struct")},
+            "xdsl.transforms.common_subexpression_elimination": {}, "xdsl.irdl.attributes": {}, "xdsl.dialects.arith": {}}}},
     "C20": {"module": "vx.checks.c20", "instrument": {"identity": ["xdsl.transforms.riscv_lower_parallel_mov"]}},
     "C14": {"module": "vx.checks.c14", "instrument": {"full": _ARITH_FULL}, "maxtasksperchild": 10},
     "C26": {"module": "vx.checks.c26", "instrument": {"full": {"xdsl.ir.affine.affine_expr": {}, "xdsl.ir.affine.affine_map": {}}}},
